@@ -29,7 +29,11 @@ PROPS = {
     },
 }
 
-_IMPLS_UNIT = {"kind": "verus", "unit": "impls"}
+_IMPLS_UNIT = {"kind": "verus", "unit": "impls", "ce_harnesses": {
+    "for Vec<T>": ["cont_vec"], "for [T; N]": ["cont_array2"], "for (A, B)": ["cont_tuple2"], "for (A, B, C)": ["cont_tuple3"], "for Option<T>": ["cont_option_box"], "for Box<T>": ["cont_option_box"],
+    "for HashSet<T>": ["cont_sets"], "for BTreeSet<T>": ["cont_sets"], "for HashMap<Key, T>": ["cont_maps"], "for BTreeMap<Key, T>": ["cont_maps"]}}
+_CONT_ENUM = {"kind": "enum", "group": "containers-enum", "harnesses": ["cont_vec", "cont_array2", "cont_tuple2", "cont_tuple3", "cont_option_box", "cont_sets", "cont_maps"],
+              "bounds": "BOUNDED: exhaustive native execution; sequences / objects of <= 3 members (3-tuple: <= 4), values {Integer 0..3, Null, Boolean} (sets: {0,1,2,7,300,null}), map keys over {\"1\",\"2\",\"x\",\"300\"}, every Continue/Break answer sequence"}
 _JSON_TARGET_UNIT = {"kind": "verus", "unit": "json_target"}
 _JSON_TARGET_ASSUME = ["serde_json::Value as a target (unit json_target): the payload is a finite tree but its type is abstract, so the recursive reference semantics (only fault: a float JSON cannot hold, reported once at its location) is introduced by two axioms giving its defining equations; termination of the recursive exec function is not proved (exec_allows_no_decreases_clause); serde_json::{Value, Number, Map} are stand-in declarations mirroring the public API; the *contents* of the resulting document are not modelled (C13 scalars: Kani)"]
 _IMPLS_FUNCS = "(), bool, String, Vec<T>, Option<T>, Box<T>, HashSet<T>, BTreeSet<T>, [T; N], (A,B), (A,B,C), HashMap<K,T>, BTreeMap<K,T>, take_cf_content, deserialize"
@@ -80,8 +84,8 @@ PROPS.update({
         "level": "proof",
         "technique": "Verus: `Ok(v) ==> v.represents(value)` with per-impl ghost relation (Vec/array/tuple: element i from payload element i; Option: None iff null; Box transparent); arity errors are part of spec_trace",
         "design_ref": "DESIGN.md §4 C06",
-        "units": [_IMPLS_UNIT],
-        "text": "Verus proves for Vec, [T;N], (A,B), (A,B,C), Option, Box: the result represents the payload element-wise in order with nothing dropped/duplicated (loop invariant seq_repr), arrays/tuples accept exactly their arity and otherwise report BadSequenceLen with the whole sequence and N, Option is None exactly for Null. Set/map *contents* and CS lists have no vstd model and are decided by bounded Kani harnesses when present.",
+        "units": [_IMPLS_UNIT, _CONT_ENUM],
+        "text": "Set / map contents (HashSet, BTreeSet equal the set of elements; HashMap, BTreeMap key each entry by the parsed key; an unparsable key fails the call) are decided by the bounded container harnesses (exhaustive native execution, <= 3 members). Verus proves for Vec, [T;N], (A,B), (A,B,C), Option, Box: the result represents the payload element-wise in order with nothing dropped/duplicated (loop invariant seq_repr), arrays/tuples accept exactly their arity and otherwise report BadSequenceLen with the whole sequence and N, Option is None exactly for Null. Set/map *contents* and CS lists have no vstd model and are decided by bounded Kani harnesses when present.",
         "level_note": "Relative to the trait contracts and the std axiom 'Vec<T> -> [T;N] try_into succeeds iff len == N, keeping order'.",
         "assumptions": _CONTAINER_ASSUME,
     },
@@ -160,6 +164,11 @@ _ERRORS_UNIT = {"kind": "verus", "unit": "errors"}
 PROPS["C03"]["units"] = [_IMPLS_UNIT, _JSON_TARGET_UNIT, _ERRORS_UNIT]
 for _p in ("C01", "C02", "C04"):
     PROPS[_p]["units"] = [_IMPLS_UNIT, _JSON_TARGET_UNIT]
+# the derived-type part of C01-C04 is bounded: the derive catalogue harnesses carry obligations labelled C01..C04 as well
+_DERIVE_ALL = ["derive_plain_2", "derive_camel_2", "derive_lower_2", "derive_deny4_2", "derive_fns5_2", "derive_conv8_2", "derive_cont9", "derive_tagged_first", "derive_tagged_last", "derive_tagged_absent", "derive_tagged_not_a_map", "derive_units", "derive_nest"]
+for _p in ("C01", "C02", "C03", "C04"):
+    PROPS[_p]["units"] = PROPS[_p]["units"] + [_CONT_ENUM, _kd("derive-core", ["derive_conv8_2", "derive_fns5_2", "derive_camel_2"], ["derive_plain_2", "derive_lower_2", "derive_deny4_2", "derive_cont9", "derive_tagged_first", "derive_units"]), _ed("derive-core", _DERIVE_ALL, ["derive_conv8_3"])]
+    PROPS[_p]["level_note"] += " Derived types: bounded stand-in only (Kani on three catalogue types in the quick tier, all in thorough; exhaustive native execution of all 13 harness bodies)."
 for _p in ("C01", "C02", "C03", "C04"):
     PROPS[_p]["assumptions"] = _CONTAINER_ASSUME + _JSON_TARGET_ASSUME
     PROPS[_p]["text"] += " serde_json::Value as a *target* (src/serde_json.rs) is proved against the same postconditions in unit json_target (arrays and objects: same accumulator invariants; the only fault is a non-finite float)."
